@@ -740,7 +740,21 @@ pub fn check_multiset<K: Kit>(ctx: &mut Ctx, kit: &K, outs: &[Vec<OutOf<K>>], so
         let bad_before = enc_of(&bad);
         let r = catch(|| bad.merge(&base));
         judge_mismatch(ctx, kit, "merge-into-mismatched", &cname, r, &bad_before, &enc_of(&bad), &before);
-        ctx.evals(3);
+        // unshard given aggregate shares that ALL mismatch the aggregation parameter in the same
+        // way (consistent among themselves): the collector must refuse them as well.
+        let n_aggs = kit.vdaf().num_aggregators();
+        let bads: Vec<AggOf<K>> = (0..n_aggs).map(|_| kit.mk_agg(&rand_elems(rng, clen, sz, &pp), other)).collect();
+        let bad_encs: Vec<String> = bads.iter().map(|b| hex_trunc(&enc_of(b), 64)).collect();
+        match catch(|| kit.vdaf().unshard(kit.agg_param(), bads, 1)) {
+            Ok(Err(_)) => ctx.count("unshard_mismatch_refused"),
+            Ok(Ok(r)) => ctx.violation(format!("{fam}|unshard|{cname}|accepted"), "unshard accepted aggregate shares whose length / tree level does not match the aggregation parameter",
+                json!({"instance": kit.name(), "case": cname, "shares": bad_encs, "result": kit.result_repr(&r)})),
+            Err(pi) => {
+                ctx.count("unshard_mismatch_panics");
+                ctx.note(format!("unshard panicked on mismatched aggregate shares ({}): C16's subject", pclass(&pi)));
+            }
+        }
+        ctx.evals(4);
     }
     // positive control for the mismatch oracle: a well-formed operand IS accepted and changes the
     // accumulator exactly by the element-wise sum
